@@ -800,9 +800,6 @@ class TrajectoryStore:
             output_store, input_stores, input_stores_pattern, input_stores_index_range
         )
 
-        # Create output directory.
-        os.mkdir(output_store)
-
         # Collect metadata and check that the field sets match.
         store_data = []
         fieldset_names: set[str] | None = None
@@ -824,6 +821,10 @@ class TrajectoryStore:
         indexable = all(g is not None for g in index_groups)
         if indexable != any(g is not None for g in index_groups):
             raise ValueError('Either all or none of the input stores must be indexable')
+
+        # Create output directory (only now, so that a refused merge leaves
+        # nothing behind and can be retried).
+        os.mkdir(output_store)
 
         # Move input stores to output directory.
         for input_store in input_stores:
